@@ -256,8 +256,10 @@ class Input(ContextManager["Input"]):
                 )
                 if e is not None:
                     return e
-            if current_bytes:  # incomplete keys shouldn't happen
-                raise ValueError("Couldn't identify key sequence: %r" % current_bytes)
+            if current_bytes:
+                # the bytes read so far end in the middle of a keypress:
+                # keep them until the rest of it has been read
+                self.unprocessed_bytes = current_bytes
             return None
 
         if self.sigints:
@@ -327,7 +329,9 @@ class Input(ContextManager["Input"]):
                     paste.events.append(e)
         else:
             e = find_key()
-            assert e is not None
+            if e is None:
+                # only part of a keypress has arrived, wait for the rest
+                return self._send(timeout)
             return e
 
     def _nonblocking_read(self) -> int:
